@@ -152,6 +152,9 @@ type Exec struct {
 	sharedRoots   []value
 	cellNames     map[*value]string
 	witness       map[string]MVal
+	interleave    *interleaveState
+	lockHook      value
+	inLockHook    bool
 }
 
 type obsRec struct {
